@@ -7,7 +7,10 @@ import (
 	"os"
 	"runtime"
 	"runtime/debug"
+	"strings"
 	"syscall"
+	"testing"
+	"testing/synctest"
 	"time"
 
 	"gitlab.com/gomidi/midi/v2/smf"
@@ -844,4 +847,21 @@ func regionsOfWritten(f *ref.File, n int) []string {
 		rg = append(rg, "trailing")
 	}
 	return rg
+}
+
+// runBubble runs body in a synctest bubble. Goroutines of the code under test that are still
+// parked when the scenario is over (a worker waiting for work, a reader on a pipe) make the
+// bubble end with a "deadlock" panic once everything has been observed: goroutine leaks are
+// not among the properties, so that panic is not a failure (the same rule as in worldcat).
+func runBubble(env *core.Env, body func(*testing.T)) {
+	defer func() {
+		if p := recover(); p != nil {
+			msg := fmt.Sprint(p)
+			if strings.Contains(msg, "deadlock") && strings.Contains(msg, "blocked goroutines remain") {
+				return
+			}
+			panic(p)
+		}
+	}()
+	synctest.Test(env.T, body)
 }
